@@ -51,6 +51,8 @@ class Lib:
             fn = getattr(self.so, name)
             if _U64_RET.search(name):
                 fn.restype = c_uint64
+            elif name.endswith("unmarshalled_length") or name.endswith("set_length"):
+                fn.restype = c_int
             elif _SIZE_RET.search(name):
                 fn.restype = c_size_t
             else:
